@@ -108,9 +108,14 @@ def kernel_rules(prog, rep, rid_prefix="C18"):
     ps = w.run(f)
     okd = False
     for p in ps:
-        for e in p.events:
-            if e.kind == "call" and e.name == "append" and e.loops and e.args:
-                a = strip_epochs(e.args[0])
+        cands = [e.args[0] for e in p.events if e.kind == "call" and e.name == "append" and e.loops and e.args]
+        cwhere = [e for e in p.events if e.kind == "call" and e.name == "append" and e.loops and e.args]
+        if p.exit[0] == "return" and p.exit[1][0] == "comp":
+            cands = [p.exit[1][2]]
+            cwhere = [e for e in p.events if e.kind == "return"]
+        for a_, e in zip(cands, cwhere):
+            if True:
+                a = strip_epochs(a_)
                 okd = a[0] == "ret" and a[1].endswith(".fnv_1a") and a[3][0] == ("p", "key") and a[3][1][0] == "it" and \
                     strip_epochs(a[3][1][2]) == ("call", ("g", "range"), (("p", "depth"),), ())
                 if not okd:
@@ -167,6 +172,18 @@ def check(prog, rep, tier):
             if p.exit[0] != "return":
                 continue
             res = p.exit[1]
+            if res[0] == "comp" and res[1] == "list" and len(res[3]) == 1 and not res[3][0][3]:
+                # comprehension form: one element per element of the domain
+                r0 = ("call", ("g", "range"), (depth,), ())
+                if strip_epochs(res[3][0][2]) != r0:
+                    rep.bad("C18.exactly-depth", name, f"comprehension over {nshow(res[3][0][2])}", "the strategy does not build one value per index in range(depth)", f.where())
+                    good = False
+                    break
+                if _mentions_outside_domains(res[2], depth):
+                    rep.bad("C18.prefix-stable", name, f"depth flows into {nshow(res[2])}", "element i depends on the requested depth, so a smaller depth is not a prefix", f.where())
+                    good = False
+                    break
+                continue
             if res[0] != "newb" or res[1] != "list":
                 rep.bad("C18.exactly-depth", name, f"returns {nshow(res)}", "the strategy does not return its freshly built list", f.where())
                 good = False
@@ -318,5 +335,9 @@ MUTANTS = [
     Mutant("default_fnv_1a memoises in a module dict", _H, insert_stmt(None, "default_fnv_1a", "_CACHE.setdefault(key, depth)"), rule="C18.pure"),
     Mutant("fnv_1a consumes str keys as utf-8 bytes only when non-ASCII", _H, replace_expr(None, "fnv_1a", "list(map(ord, key))", "list(key.encode('utf-16'))"), rule="C18.text"),
     Mutant("default_md5 salts with the depth index", _H, replace_expr(None, "default_md5", "md5(key).digest()", "md5(key + bytes(args[0])).digest()"), rule="C18.range"),
+    Mutant("default_fnv_1a as a comprehension (same meaning)", _H,
+           replace_stmt(None, "default_fnv_1a", "res = []", "return [fnv_1a(key, idx) for idx in range(depth)]"), expect="silent"),
+    Mutant("default_fnv_1a comprehension over the pre-encoded key", _H,
+           replace_stmt(None, "default_fnv_1a", "res = []", "return [fnv_1a(key.encode('utf-8') if isinstance(key, str) else key, idx) for idx in range(depth)]"), rule="C18.fnv"),
     Mutant("fnv mask spelled % 2**64 (same meaning)", _H, replace_stmt(None, "fnv_1a", "hval &= UINT64_T_MAX", "hval %= 2 ** 64"), expect="silent"),
 ]
